@@ -1,3 +1,3 @@
 From Coq Require Import ExtrOcamlBasic.
-From HV Require Import Text.XmlLex Text.Base64Mem.
-Extraction "c06_model.ml" walk_topology walk_diff decode_mem.
+From HV Require Import Text.XmlLex Text.Base64Mem Text.XmlImport.
+Extraction "c06_model.ml" walk_topology walk_diff decode_mem import_doc.
